@@ -234,6 +234,33 @@ pub fn generate(rng: &Rng, world: &World) -> C04 {
     let g = Gen { cfg: &cfg, pool: &pool };
     let n = if big_model() { r.weighted(&[0, 3, 4, 2]) } else { r.weighted(&[0, 3, 4, 4, 3, 2, 1]) };
     let mut batch: Vec<F> = Vec::new();
+    // a pair of formulae that use the same open fragment under quantifiers with the *same* domain
+    // (duplicates whose key carries a domain), under different variable names and quantifiers
+    if !cfg.labels.is_empty() && world.k >= 1 && n >= 2 && r.chance(1, 3) {
+        let d = r.pick(&cfg.labels).clone();
+        for _ in 0..2 {
+            let v = *r.pick(&fgen::NAME_POOL);
+            if let Some(frag) = pool.open_fragment(&mut r, v) {
+                if frag.quant_depth() + 1 > world.k as usize {
+                    continue;
+                }
+                let side = F::prop(r.pick(&cfg.props));
+                let body = match r.below(3) {
+                    0 => frag,
+                    1 => F::bin(*r.pick(&["&", "|", "=>"]), frag, side),
+                    _ => F::bin("&", side, F::un(*r.pick(&["~", "EX", "AG"]), frag)),
+                };
+                let f = match r.below(3) {
+                    0 => F::hyb("!", v, Some(d.as_str()), body),
+                    1 => F::hyb("3", v, Some(d.as_str()), F::hyb("@", v, None, body)),
+                    _ => F::hyb("V", v, Some(d.as_str()), F::hyb("@", v, None, body)),
+                };
+                if f.is_closed() && f.well_scoped() {
+                    batch.push(f);
+                }
+            }
+        }
+    }
     while batch.len() < n {
         let c = if batch.is_empty() { 0 } else { r.weighted(&[6, 2, 2]) };
         let f = match c {
